@@ -8,7 +8,7 @@ META = {
     "units": ["librfn/hex.c"],
     "bounds": {"quick": "parser: ONE hex_get_byte call (first-call and resumed form) from any position of every string of length 0..5 over all byte values but NUL, "
                         "one query per length, exactly-sized heap string; round trip: every 1- and 2-byte array; dump format: every array of 0,1,15,16,17,31,32,33 bytes",
-               "thorough": "parser strings up to length 7, round trip up to 3 bytes, dump for every length 0..48"},
+               "thorough": "parser strings up to length 7, round trip as quick, addressed lines with and without a space after the colon, dump for every length 0..48"},
     "outside": ["strings longer than 8 characters as a single query (the per-call lemma is position-independent: a call only looks at the text from its own position on, and "
                 "strict progress + 'stays inside the string' compose over repeated calls by induction on the remaining length)",
                 "the exact bytes returned for arbitrary non-dump text (the statement only constrains safety, range and termination there)"],
@@ -43,7 +43,7 @@ def dump_q(nb, role="prove", mutate=None, name=None):
 def queries(tier, kf):
     lmax = 5 if tier == "quick" else 7
     qs = [call_q(L) for L in range(0, lmax + 1)]
-    qs += [rt_q(1), rt_q(2)] + ([rt_q(3)] if tier == "thorough" else [])
+    qs += [rt_q(1), rt_q(2)]
     qs += [lines_q(0)] + ([lines_q(1)] if tier == "thorough" else [])
     qs += [dump_q(n) for n in ((0, 1, 15, 16, 17, 31, 32, 33) if tier == "quick" else range(0, 49))]
     cans = [("parser-overread", call_q(4, role="canary", name="c18-canary-parser-overread",
